@@ -4,10 +4,85 @@ Aux field codec: every well-formed aux field written by `buildAux` is read back 
 -/
 import Hts.Lemmas.BamBytes
 import Hts.Lemmas.BamWF
+import Hts.Lemmas.Bytes
 namespace Hts.Model.Bam
 
-/-- one aux field as written: `Z`/`H` get their NUL -/
-def encAux (a : List Byte) : List Byte := a ++ (if isZH (a.getD 2 0#8) then [0#8] else [])
+/-! ### hex digits -/
+
+theorem unhex_hexDigit : ∀ n : Fin 16, unhex (hexDigit n.val) = some n.val := by decide
+
+theorem hexDigit_ne_zero : ∀ n : Fin 16, (hexDigit n.val == 0#8) = false := by decide
+
+theorem hexEnc_length (v : List Byte) : (hexEnc v).length = 2 * v.length := by
+  induction v with
+  | nil => rfl
+  | cons b bs ih => simp only [hexEnc, List.length_cons, ih]; omega
+
+theorem hexEnc_noZero (v : List Byte) : (hexEnc v).contains 0#8 = false := by
+  induction v with
+  | nil => rfl
+  | cons b bs ih =>
+    have h1 := hexDigit_ne_zero ⟨b.toNat / 16, by have := b.isLt; omega⟩
+    have h2 := hexDigit_ne_zero ⟨b.toNat % 16, by omega⟩
+    simp only [hexEnc, List.contains_cons, ih, Bool.or_false]
+    simp only [beq_eq_false_iff_ne, ne_eq] at h1 h2 ⊢
+    simp only [Bool.or_eq_false_iff, beq_eq_false_iff_ne, ne_eq]
+    exact ⟨fun e => h1 e.symm, fun e => h2 e.symm⟩
+
+/-- H payload: digits → bytes inverts bytes → digits -/
+theorem hexDec_hexEnc (v : List Byte) : hexDec (hexEnc v) = .ok v := by
+  induction v with
+  | nil => rfl
+  | cons b bs ih =>
+    have hb := b.isLt
+    have h1 := unhex_hexDigit ⟨b.toNat / 16, by omega⟩
+    have h2 := unhex_hexDigit ⟨b.toNat % 16, by omega⟩
+    simp only at h1 h2
+    have hv : byteOf (b.toNat / 16 * 16 + b.toNat % 16) = b := by
+      have : b.toNat / 16 * 16 + b.toNat % 16 = b.toNat := by omega
+      rw [this, byteOf_of_toNat]
+    simp only [hexEnc, hexDec, h1, h2, ih, hv]
+
+
+theorem hexDec_err : ∀ (l : List Byte) (e : Fault), hexDec l = .error e → e = .errAuxHexDigit
+  | [], e, h => by simp [hexDec] at h
+  | [_], e, h => by simp [hexDec] at h
+  | a :: b :: rest, e, h => by
+    simp only [hexDec] at h
+    split at h
+    · split at h
+      · rename_i f hf
+        cases h
+        exact hexDec_err rest _ hf
+      · cases h
+    · cases h; rfl
+
+theorem decodeHex_err (f : List Byte) (e : Fault) (h : decodeHex f = .error e) :
+    e = .errAuxHexOdd ∨ e = .errAuxHexDigit := by
+  unfold decodeHex at h
+  split at h
+  · cases h; exact Or.inl rfl
+  · split at h
+    · rename_i e' he
+      cases h
+      exact Or.inr (hexDec_err _ _ he)
+    · cases h
+
+/-- one aux field as written (`encAuxT` on the field's own type byte) -/
+def encAux (a : List Byte) : List Byte := encAuxT (a.getD 2 0#8) a
+
+theorem encAux_H (t0 t1 : Byte) (v : List Byte) :
+    encAux (t0 :: t1 :: 72#8 :: v) = t0 :: t1 :: 72#8 :: (hexEnc v ++ [0#8]) := by
+  simp [encAux, encAuxT]
+
+theorem encAux_Z (t0 t1 : Byte) (v : List Byte) :
+    encAux (t0 :: t1 :: 90#8 :: v) = t0 :: t1 :: 90#8 :: (v ++ [0#8]) := by
+  simp [encAux, encAuxT]
+
+theorem encAux_other (t0 t1 t : Byte) (v : List Byte) (h : isZH t = false) :
+    encAux (t0 :: t1 :: t :: v) = t0 :: t1 :: t :: v := by
+  simp only [isZH, Bool.or_eq_false_iff] at h
+  simp [encAux, encAuxT, h.1, h.2]
 
 def encAuxAll (as : List (List Byte)) : List Byte := as.flatMap encAux
 
@@ -92,22 +167,52 @@ theorem parse_fixed (fuel : Nat) (t0 t1 t : Byte) (v rest : List Byte) (acc : Li
   simp only [parseAuxFuel, hpos, ↓reduceIte, hn, hlen, hd, ht]
 
 
-/-- a NUL-terminated field is consumed up to and including its NUL; the NUL is not part of the field -/
-theorem parse_zh (fuel : Nat) (t0 t1 t : Byte) (v rest : List Byte) (acc : List (List Byte))
-    (ht : isZH t = true) (hz : (t0 :: t1 :: t :: v).contains 0#8 = false) :
-    parseAuxFuel (fuel + 1) (t0 :: t1 :: t :: (v ++ 0#8 :: rest)) acc
-      = parseAuxFuel fuel rest ((t0 :: t1 :: t :: v) :: acc) := by
-  have hj : jumps t = -1 := by
-    simp only [isZH, Bool.or_eq_true, beq_iff_eq] at ht
-    rcases ht with rfl | rfl <;> rfl
-  have hi := indexZero_append (t0 :: t1 :: t :: v) rest hz
+/-- a `Z` field is consumed up to and including its NUL; the NUL is not part of the field -/
+theorem parse_z (fuel : Nat) (t0 t1 : Byte) (v rest : List Byte) (acc : List (List Byte))
+    (hz : (t0 :: t1 :: 90#8 :: v).contains 0#8 = false) :
+    parseAuxFuel (fuel + 1) (t0 :: t1 :: 90#8 :: (v ++ 0#8 :: rest)) acc
+      = parseAuxFuel fuel rest ((t0 :: t1 :: 90#8 :: v) :: acc) := by
+  have hj : jumps 90#8 = -1 := rfl
+  have ht : isZH 90#8 = true := rfl
+  have hi := indexZero_append (t0 :: t1 :: 90#8 :: v) rest hz
   simp only [List.cons_append] at hi
-  have hd : (t0 :: t1 :: t :: (v ++ 0#8 :: rest)).drop ((t0 :: t1 :: t :: v).length + 1) = rest := by
+  have hd : (t0 :: t1 :: 90#8 :: (v ++ 0#8 :: rest)).drop ((t0 :: t1 :: 90#8 :: v).length + 1) = rest := by
     simp
-  have htk : (t0 :: t1 :: t :: (v ++ 0#8 :: rest)).take ((t0 :: t1 :: t :: v).length) = t0 :: t1 :: t :: v := by
+  have htk : (t0 :: t1 :: 90#8 :: (v ++ 0#8 :: rest)).take ((t0 :: t1 :: 90#8 :: v).length)
+      = t0 :: t1 :: 90#8 :: v := by
     simp
-  have hk : ¬ ((t0 :: t1 :: t :: v).length < 3) := by simp
-  simp only [parseAuxFuel, hj, ht, hi, hk, hd, htk]
+  have hk : ¬ ((t0 :: t1 :: 90#8 :: v).length < 3) := by simp
+  have h72 : (90#8 == 72#8) = false := rfl
+  simp only [parseAuxFuel, hj, ht, hi, hk, hd, htk, h72]
+  simp
+
+/-- an `H` field: the digits up to the NUL are consumed and decoded back into the in-memory bytes -/
+theorem parse_h (fuel : Nat) (t0 t1 : Byte) (v rest : List Byte) (acc : List (List Byte))
+    (h0 : t0 ≠ 0#8) (h1 : t1 ≠ 0#8) :
+    parseAuxFuel (fuel + 1) (t0 :: t1 :: 72#8 :: (hexEnc v ++ 0#8 :: rest)) acc
+      = parseAuxFuel fuel rest ((t0 :: t1 :: 72#8 :: v) :: acc) := by
+  have hj : jumps 72#8 = -1 := rfl
+  have ht : isZH 72#8 = true := rfl
+  have hz : (t0 :: t1 :: 72#8 :: hexEnc v).contains 0#8 = false := by
+    have := hexEnc_noZero v
+    simp only [List.contains_cons, this, Bool.or_false, Bool.or_eq_false_iff, beq_eq_false_iff_ne, ne_eq]
+    exact ⟨fun e => h0 e.symm, fun e => h1 e.symm, by decide⟩
+  have hi := indexZero_append (t0 :: t1 :: 72#8 :: hexEnc v) rest hz
+  simp only [List.cons_append] at hi
+  have hd : (t0 :: t1 :: 72#8 :: (hexEnc v ++ 0#8 :: rest)).drop ((t0 :: t1 :: 72#8 :: hexEnc v).length + 1)
+      = rest := by
+    simp
+  have htk : (t0 :: t1 :: 72#8 :: (hexEnc v ++ 0#8 :: rest)).take ((t0 :: t1 :: 72#8 :: hexEnc v).length)
+      = t0 :: t1 :: 72#8 :: hexEnc v := by
+    simp
+  have hk : ¬ ((t0 :: t1 :: 72#8 :: hexEnc v).length < 3) := by simp
+  have hdec : decodeHex (t0 :: t1 :: 72#8 :: hexEnc v) = .ok (t0 :: t1 :: 72#8 :: v) := by
+    have hl := hexEnc_length v
+    have hodd : ((hexEnc v).length % 2 == 1) = false := by
+      simp only [hl, beq_eq_false_iff_ne, ne_eq]; omega
+    simp [decodeHex, hodd, hexDec_hexEnc]
+  have h72 : (72#8 == 72#8) = true := rfl
+  simp only [parseAuxFuel, hj, ht, hi, hk, hd, htk, h72, hdec]
   simp
 
 /-- an array is consumed whole -/
@@ -142,7 +247,8 @@ theorem parse_b (fuel : Nat) (t0 t1 sub n0 n1 n2 n3 : Byte) (elems rest : List B
 theorem auxOK_cons3 (t0 t1 t : Byte) (v : List Byte) :
     auxOK (t0 :: t1 :: t :: v) =
       (if t == 65#8 then v.length == 1
-       else if t == 90#8 || t == 72#8 then !(t0 :: t1 :: t :: v).contains 0#8
+       else if t == 90#8 then !(t0 :: t1 :: t :: v).contains 0#8
+       else if t == 72#8 then t0 != 0#8 && t1 != 0#8
        else if t == 66#8 then
          match v with
          | sub :: n0 :: n1 :: n2 :: n3 :: elems =>
@@ -161,31 +267,38 @@ theorem parse_step (fuel : Nat) (a rest : List Byte) (acc : List (List Byte)) (h
   match a, h with
   | t0 :: t1 :: t :: v, h =>
     rw [auxOK_cons3] at h
-    have hg : (t0 :: t1 :: t :: v).getD 2 0#8 = t := rfl
-    simp only [encAux, hg]
     split at h
     · -- 'A'
       rename_i hA
       have hA' : t = 65#8 := by simpa using hA
       subst hA'
       have hv : v.length = 1 := by simpa using h
-      have : isZH 65#8 = false := rfl
-      simp only [this, Bool.false_eq_true, ↓reduceIte, List.append_nil, List.cons_append]
+      rw [encAux_other _ _ _ _ rfl]
       exact parse_fixed fuel t0 t1 65#8 v rest acc 1 rfl (by omega) hv
     split at h
-    · -- 'Z' / 'H'
+    · -- 'Z'
       rename_i _ hZ
-      have hzh : isZH t = true := by simpa [isZH] using hZ
-      have hz : (t0 :: t1 :: t :: v).contains 0#8 = false := by simpa using h
-      simp only [hzh, ↓reduceIte, List.cons_append, List.append_assoc]
-      exact parse_zh fuel t0 t1 t v rest acc hzh hz
+      have hZ' : t = 90#8 := by simpa using hZ
+      subst hZ'
+      have hz : (t0 :: t1 :: 90#8 :: v).contains 0#8 = false := by simpa using h
+      rw [encAux_Z]
+      simp only [List.cons_append, List.append_assoc]
+      exact parse_z fuel t0 t1 v rest acc hz
+    split at h
+    · -- 'H'
+      rename_i _ _ hH
+      have hH' : t = 72#8 := by simpa using hH
+      subst hH'
+      simp only [Bool.and_eq_true, bne_iff_ne, ne_eq] at h
+      rw [encAux_H]
+      simp only [List.cons_append, List.append_assoc]
+      exact parse_h fuel t0 t1 v rest acc h.1 h.2
     split at h
     · -- 'B'
-      rename_i _ _ hB
+      rename_i _ _ _ hB
       have hB' : t = 66#8 := by simpa using hB
       subst hB'
-      have : isZH 66#8 = false := rfl
-      simp only [this, Bool.false_eq_true, ↓reduceIte, List.append_nil, List.cons_append]
+      rw [encAux_other _ _ _ _ rfl]
       split at h
       · rename_i sub n0 n1 n2 n3 elems
         split at h
@@ -201,7 +314,7 @@ theorem parse_step (fuel : Nat) (a rest : List Byte) (acc : List (List Byte)) (h
         have hv : v.length = w := by simpa using h
         obtain ⟨hj, hw0⟩ := elemWidth_jumps hw
         have hz := (elemWidth_notZH hw).1
-        simp only [hz, Bool.false_eq_true, ↓reduceIte, List.append_nil, List.cons_append]
+        rw [encAux_other _ _ _ _ hz]
         exact parse_fixed fuel t0 t1 t v rest acc w hj hw0 hv
       · simp at h
 
@@ -223,9 +336,22 @@ theorem parseAuxFuel_encAuxAll (as : List (List Byte)) (h : ∀ a ∈ as, auxOK 
       rw [e, parse_step f a _ acc ha, ih (fun b hb => h b (by simp [hb])) f (a :: acc) (by simpa using hf)]
       simp
 
+theorem encAux_length (a : List Byte) (h : 3 ≤ a.length) : (encAux a).length = auxSize1 a := by
+  match a, h with
+  | t0 :: t1 :: t :: v, _ =>
+    have hg : (t0 :: t1 :: t :: v).getD 2 0#8 = t := rfl
+    simp only [encAux, encAuxT, auxSize1, hg]
+    split
+    · simp [hexEnc_length]; omega
+    · split <;> simp
+
 theorem encAux_length_pos (a : List Byte) (h : auxOK a = true) : 0 < (encAux a).length := by
-  have := auxOK_length h
-  simp only [encAux, List.length_append]; omega
+  have h3 := auxOK_length h
+  rw [encAux_length a h3]
+  simp only [auxSize1]
+  split
+  · omega
+  · split <;> omega
 
 theorem encAuxAll_length_ge (as : List (List Byte)) (h : ∀ a ∈ as, auxOK a = true) :
     as.length ≤ (encAuxAll as).length := by
@@ -242,13 +368,14 @@ theorem parseAux_encAuxAll (as : List (List Byte)) (h : ∀ a ∈ as, auxOK a = 
   have := parseAuxFuel_encAuxAll as h ((encAuxAll as).length + 1) [] (by have := encAuxAll_length_ge as h; omega)
   simpa [parseAux] using this
 
-theorem encAuxAll_length (as : List (List Byte)) : (encAuxAll as).length = auxSize as := by
+theorem encAuxAll_length (as : List (List Byte)) (h : ∀ a ∈ as, auxOK a = true) :
+    (encAuxAll as).length = auxSize as := by
   induction as with
   | nil => rfl
   | cons a as ih =>
+    have ih' := ih (fun b hb => h b (by simp [hb]))
+    have ha := encAux_length a (auxOK_length (h a (by simp)))
     simp only [encAuxAll, List.flatMap_cons, List.length_append, auxSize, List.map_cons, List.sum_cons] at *
-    rw [ih]
-    simp only [encAux, List.length_append]
-    split <;> simp
+    rw [ih', ha]
 
 end Hts.Model.Bam
